@@ -65,6 +65,8 @@ def run(res, ctx):
     reqs = ctx.get('replay_requests') or c20.map_requests(res.tier, res.seed)
     rc, rows = core.run_oracle(binp, reqs)
     evaluate(res, [r[:2] for r in rows])
+    if not ctx.get('replay_requests'):
+        unord.evaluate_umap_multi(res, binp)     # the count-carrying (repeated-key) paths: model vs implementation only
 
     def search():
         r2 = core.Result(PROP, res.tier, res.seed)
